@@ -105,11 +105,20 @@ pub fn converged(d: &Driver) -> Option<Conv> {
     }
     let l = leaders[0];
     let lr = d.sim.nodes[l].raw.as_ref().unwrap();
-    if lr.raft.term != max_term {
-        return None;
-    }
     let conf = d.sim.nodes[l].conf.clone();
     let mem = conf.members();
+    // the leader has the highest term among the running members of its configuration
+    // (a removed node that never learnt of its removal may campaign forever at higher terms)
+    let _ = max_term;
+    let max_member_term = run
+        .iter()
+        .filter(|&&v| mem.contains(&d.sim.nodes[v].id))
+        .map(|&v| d.sim.nodes[v].raw.as_ref().unwrap().raft.term)
+        .max()
+        .unwrap_or(0);
+    if lr.raft.term != max_member_term {
+        return None;
+    }
     let (li, lt, lc) = (
         lr.raft.raft_log.last_index(),
         lr.raft.raft_log.last_term(),
@@ -175,8 +184,13 @@ fn diagnose(d: &Driver) -> String {
         let nd = &d.sim.nodes[v];
         let r = nd.raw.as_ref().unwrap();
         s.push_str(&format!(
-            "[n{} {:?} t{} lead{} li{} lt{} c{} a{} reqsnap{} xfer{:?} conf{:?}",
+            "[n{} first{} ck{:?} pf{} fu{} su{} {:?} t{} lead{} li{} lt{} c{} a{} reqsnap{} xfer{:?} conf{:?}",
             nd.id,
+            r.raft.raft_log.first_index(),
+            nd.store.with(|s| s.vol.ck.as_ref().map(|c| c.index)),
+            nd.store.with(|s| s.pending_fetch.len()),
+            nd.store.with(|s| s.fetch_unavailable),
+            nd.store.with(|s| s.snap_unavailable),
             r.raft.state,
             r.raft.term,
             r.raft.leader_id,
@@ -234,6 +248,14 @@ fn stuck_class(d: &Driver) -> &'static str {
     }
     if waiting {
         return "follower-waiting-for-requested-snapshot";
+    }
+    {
+        let r = d.sim.nodes[l].raw.as_ref().unwrap();
+        for (id, p) in r.raft.prs().iter() {
+            if *id != d.sim.nodes[l].id && p.pending_request_snapshot > lcommit {
+                return "leader-holds-snapshot-request-beyond-its-commit";
+            }
+        }
     }
     let r = d.sim.nodes[l].raw.as_ref().unwrap();
     for (id, p) in r.raft.prs().iter() {
@@ -467,4 +489,121 @@ pub fn settle(d: &mut Driver) {
     }
     d.sim.mon.stats.inc("c10.fresh_proposal_applied_everywhere");
     d.sim.log("SETTLE end".into());
+    let p = match d.profile {
+        crate::sim::gen::Profile::Transfer => 1,
+        crate::sim::gen::Profile::Lockstep => 0,
+        _ => 4,
+    };
+    if p > 0 && d.rng.chance(1, p) {
+        transfer_completion(d);
+    }
+}
+
+/// C17(e): in a healthy, settled cluster a requested transfer either completes (target leads
+/// a higher term, old leader follows it) or is abandoned with the leader accepting proposals
+/// again; the cluster never ends up without a leader that accepts proposals (bounded).
+pub fn transfer_completion(d: &mut Driver) {
+    let c = match converged(d) {
+        Some(c) => c,
+        None => return,
+    };
+    if d.knobs.group_commit {
+        return;
+    }
+    let l = c.leader;
+    let lid = d.sim.nodes[l].id;
+    let conf = d.sim.nodes[l].conf.clone();
+    let cands: Vec<usize> = c
+        .members
+        .iter()
+        .cloned()
+        .filter(|&v| v != l && conf.voters.contains(&d.sim.nodes[v].id))
+        .collect();
+    if cands.is_empty() {
+        return;
+    }
+    let u = cands[d.rng.usize(cands.len())];
+    let uid = d.sim.nodes[u].id;
+    let t0 = d.sim.nodes[l].raw.as_ref().unwrap().raft.term;
+    let et = d.knobs.election_tick;
+    d.sim.mon.stats.inc("c17.completion_attempts");
+    // request at the leader or through a follower (which forwards it)
+    let at = if d.rng.chance(1, 3) {
+        let f: Vec<usize> = c.members.iter().cloned().filter(|&v| v != l).collect();
+        f[d.rng.usize(f.len())]
+    } else {
+        l
+    };
+    d.sim.log(format!("TRANSFER-COMPLETION request at n{} target n{}", d.sim.nodes[at].id, uid));
+    d.sim.exec(&Action::Transfer(at, uid));
+    let mut rounds = 0;
+    let mut outcome = "";
+    while rounds < B_HARD * et && !d.sim.aborted {
+        one_round(d, rounds);
+        rounds += 1;
+        let ur = match d.sim.nodes[u].raw.as_ref() {
+            Some(r) => r,
+            None => break,
+        };
+        let lr = match d.sim.nodes[l].raw.as_ref() {
+            Some(r) => r,
+            None => break,
+        };
+        if ur.raft.state == StateRole::Leader && ur.raft.term > t0 {
+            // completed: the old leader must follow the target (once it has heard from it)
+            if lr.raft.state == StateRole::Follower && lr.raft.leader_id == uid && lr.raft.term == ur.raft.term {
+                outcome = "completed";
+                break;
+            }
+        } else if rounds > 1 {
+            // not (yet) completed: is there a usable leader (the old one after abandoning the
+            // transfer or after being re-elected, or somebody else)?
+            if let Some(cv) = converged(d) {
+                let w = cv.leader;
+                let wr = d.sim.nodes[w].raw.as_ref().unwrap();
+                if w != u && wr.raft.lead_transferee.is_none() && d.sim.nodes[w].idle() {
+                    let before = wr.raft.raft_log.last_index();
+                    d.sim.exec(&Action::Propose(w, 8));
+                    let after = d.sim.nodes[w].raw.as_ref().map(|r| r.raft.raft_log.last_index()).unwrap_or(0);
+                    if after > before {
+                        outcome = if w == l { "abandoned-leader-usable" } else { "other-leader" };
+                        break;
+                    }
+                }
+            }
+        }
+    }
+    if d.sim.aborted {
+        return;
+    }
+    match outcome {
+        "completed" => {
+            d.sim.mon.stats.inc("c17.completions");
+            if rounds <= 2 * et {
+                d.sim.mon.stats.inc("c17.completions_within_two_election_timeouts");
+            }
+        }
+        "abandoned-leader-usable" => d.sim.mon.stats.inc("c17.completion_abandoned_leader_usable"),
+        "other-leader" => d.sim.mon.stats.inc("c17.completion_other_leader_elected"),
+        _ => {
+            if !premise_holds(d) {
+                return;
+            }
+            d.sim.mon.violation(
+                "C17",
+                "transfer-never-wedges",
+                format!("transfer-neither-completed-nor-abandoned/{}", stuck_class(d)),
+                format!(
+                    "transfer from {} to {} requested in a healthy cluster: after {} election timeouts the target does not lead, and the old leader neither leads usably nor follows: {}",
+                    lid, uid, B_HARD, diagnose(d)
+                ),
+                lid,
+                d.sim.step,
+            );
+            d.sim.aborted = true;
+        }
+    }
+    let mut f = Fp::new();
+    f.u(outcome.len() as u64).u((at == l) as u64).u(conf.voters.len() as u64).u(d.knobs.pre_vote as u64).u(d.knobs.check_quorum as u64).u(d.knobs.priorities as u64);
+    d.sim.mon.stats.hit("C17", f.get());
 }
